@@ -3,6 +3,7 @@ import Driver.Quote
 import Driver.Auth
 import Driver.Rights
 import Driver.Trace
+import Driver.Lock
 open Lean
 
 def dispatch (j : Json) : Json :=
@@ -14,15 +15,16 @@ def dispatch (j : Json) : Json :=
   | "ping" => Driver.obj [("r", Json.str "pong")]
   | _ => Driver.obj [("error", Json.str "bad-model")]
 
-partial def loop (hin hout : IO.FS.Stream) : IO Unit := do
+partial def loop (hin hout : IO.FS.Stream) (tb : Driver.LockTable) : IO Unit := do
   let line ← hin.getLine
   if line.isEmpty then return ()
-  let out := match Json.parse line with
-    | .ok j => dispatch j
-    | .error e => Driver.obj [("error", Json.str ("parse: " ++ e))]
+  let (tb', out) := match Json.parse line with
+    | .ok j =>
+      if Driver.getS j "m" == "lock" then Driver.handleLock tb j else (tb, dispatch j)
+    | .error e => (tb, Driver.obj [("error", Json.str ("parse: " ++ e))])
   hout.putStrLn out.compress
   hout.flush
-  loop hin hout
+  loop hin hout tb'
 
 def main : IO Unit := do
-  loop (← IO.getStdin) (← IO.getStdout)
+  loop (← IO.getStdin) (← IO.getStdout) {}
